@@ -149,12 +149,13 @@ class PathCtx:
                 # decided by the linear facts alone?  (pc is satisfiable on a live path, so if the
                 # linear facts exclude one side the other side is the feasible one)
                 self.lin.push(); self.lin.add(cond); r1 = self.lin.check(); self.lin.pop()
-                if r1 == z3.unsat:
+                self.lin.push(); self.lin.add(z3.Not(cond)); r2 = self.lin.check(); self.lin.pop()
+                if r1 == z3.unsat and r2 == z3.unsat:
+                    raise Infeasible("path condition unsatisfiable")
+                if r1 == z3.unsat and r2 == z3.sat:
                     t_ok, f_ok = False, True
-                else:
-                    self.lin.push(); self.lin.add(z3.Not(cond)); r2 = self.lin.check(); self.lin.pop()
-                    if r2 == z3.unsat:
-                        t_ok, f_ok = True, False
+                elif r2 == z3.unsat and r1 == z3.sat:
+                    t_ok, f_ok = True, False
             if t_ok is None:
                 t_ok = self.feasible(cond)
                 f_ok = self.feasible(z3.Not(cond))
